@@ -166,8 +166,8 @@ package gorm
 //@   inline
 //@   requires db.clone > 0
 //@   modifies nothing
-//@   loop 1 invariant selects-own-1: tx.Statement.Selects == nil || fresh(tx.Statement.Selects)
-//@   loop 2 invariant selects-own-2: tx.Statement.Selects == nil || fresh(tx.Statement.Selects)
+//@   loop 1 invariant selects-own-1: tx.Statement.Selects == nil || fresh(tx.Statement.Selects) [C06,C10]
+//@   loop 2 invariant selects-own-2: tx.Statement.Selects == nil || fresh(tx.Statement.Selects) [C06,C10]
 //@   ensures fresh-result: fresh(result)
 //@   ensures parent-handle-untouched: objUnchanged(db) [C06,C13,C18,C05]
 //@   ensures parent-statement-untouched: objUnchanged(db.Statement) [C06,C13,C18,C05]
@@ -662,18 +662,19 @@ package gorm
 //@   in gorm.(*DB).FindInBatches
 //@   min-sites 1
 //@   entry orSeen == 0 && regrouped == 0
-//@   assert conditions-of-the-batch-handle: arg0 == whereExprs(tx.Statement) [C15]
+//@   assert conditions-of-the-batch-handle: arg0 == whereExprs(tx.Statement) [C15,C06]
 //@ site batch-conditions-grouped
 //@   match mapwrite Statement.Clauses
 //@   in gorm.(*DB).FindInBatches
 //@   min-sites 1
-//@   assert one-and-group-in-the-batch-handle: recv == tx.Statement && arg1 == "WHERE" && is(arg2.Expression, clause.Where) && len(arg2.Expression.(clause.Where).Exprs) == 1 && !is(arg2.Expression.(clause.Where).Exprs[0], clause.OrConditions) [C15]
+//@   assert one-and-group-in-the-batch-handle: recv == tx.Statement && arg1 == "WHERE" && is(arg2.Expression, clause.Where) && len(arg2.Expression.(clause.Where).Exprs) == 1 && !is(arg2.Expression.(clause.Where).Exprs[0], clause.OrConditions) [C15,C06]
 //@ site batch-cursor-condition
 //@   match call gorm.(*DB).Clauses
 //@   in gorm.(*DB).FindInBatches
 //@   min-sites 1
 //@   assert added-to-the-grouped-handle: arg0 == tx [C15]
 //@   assert key-greater-than-last-row: len(arg1) == 1 && is(arg1[0], clause.Gt) && arg1[0].(clause.Gt).Value == primaryValue [C15]
+//@   assert key-column-of-the-models-own-table: arg1[0].(clause.Gt).Column.(clause.Column) == clause.Column{Table: clause.CurrentTable, Name: clause.PrimaryKey} [C15]
 //@ site batch-query-size
 //@   match call gorm.(*DB).Limit
 //@   in gorm.(*DB).FindInBatches
@@ -766,7 +767,7 @@ package gorm
 //@   match calldyn elem
 //@   in gorm.(*processor).Execute
 //@   min-sites 1
-//@   assert an-instance-that-owns-its-statement: arg0.clone <= 0 && arg0.Statement != nil && arg0.Statement.DB == arg0 [C05,C06]
+//@   assert an-instance-that-owns-its-statement: arg0.clone <= 0 && arg0.Statement != nil && arg0.Statement.DB == arg0 [C05,C06,C13]
 //@ ghost textCleared
 //@ event call strings.(*Builder).Reset
 //@   in gorm.(*processor).Execute
@@ -1105,6 +1106,19 @@ package gorm
 //@   in gorm.(*Association).saveAssociation
 //@   min-sites 2
 //@   assert cleared-once: defined(rv) ==> arg2 == (clear && idx == 0) [C12]
+
+//@ # ---------- C16: a later Attrs / Assign replaces an earlier one ----------
+//@ site attrs-and-assign-replace
+//@   match store Statement.attrs | store Statement.assigns
+//@   in gorm.(*DB).Attrs gorm.(*DB).Assign
+//@   min-sites 2
+//@   assert the-calls-own-list: arg0 == attrs [C16]
+//@ # ---------- C15: a NULL column overwrites what a reused map destination held ----------
+//@ site map-destination-gets-every-column
+//@   match mapwrite map
+//@   in gorm.scanIntoMap
+//@   min-sites 4
+//@   assert keyed-by-a-column: true [C15,C03]
 
 //@ # ---------- C18/C04: a nested block is set up and undone on the caller's handle ----------
 //@ # SAVEPOINT and ROLLBACK TO SAVEPOINT of a nested Transaction carry the same context (and run on the same
